@@ -175,6 +175,41 @@ CLAIMED['C03'] = dict(
         "every replacement string of the text database fit the arguments the walker database declares.",
    ref="DESIGN.md section 5, C03", note=_L2T_NOTE + "; symbol and accent tables are data and are not checked against Unicode")
 
+CLAIMED['C10'] = dict(
+   text="Proof of the hand-over contracts through which the math / text mode travels, on the real code: the event handler's "
+        "enter / leave deltas set exactly (in_math_mode, math_mode_delimiter); get_updated_parsing_state_from_delta and the "
+        "delta classes hand on parsing_state.sub_context(those attributes) (C17 contract: every other field inherited) and leave "
+        "the given state unaltered; LatexMathParserInfo.initialize puts the contents in math mode with the opening delimiter "
+        "recorded and takes the closing delimiter from the table's partner of the opening one, the math node keeps the OUTER "
+        "state, displaytype follows the token kind, the contents stop exactly at the partner delimiter of the same kind, a "
+        "closing delimiter never opens a formula; LatexDelimitedExpressionParser.parse (groups and math) parses the contents once "
+        "in the contents state and builds the node at the opening token; LatexArgumentsParser.parse gives argument j the state "
+        "its own delta yields, in order; environment bodies get the spec's body delta (EnvironmentSpec(is_math_mode=True) "
+        "declares enter-math: real constructor executed); the collector creates its nodes with its current state and parses "
+        "children in make_child_parsing_state(...) (clause on process_one_token); the tokenizer tries the expected closing "
+        "delimiter before any opening one and otherwise takes the longest delimiter (C11 unit, shared); table obligations: "
+        "text-like macros leave, ensuremath enters, the 15 math environments enter math mode and nothing else declares a change.",
+   ref="DESIGN.md section 5, C10",
+   note=NOTE + "; the statement for every node of every document is the induction over parser invocations on top of these "
+        "contracts (stated, not mechanised); which strings are delimiters and their partners are arbitrary unknowns; A-TABLE")
+
+CLAIMED['C02'] = dict(
+   text="Proof of the mechanisms the property names, each as a contract on the real function (NOT of the end-to-end statement that "
+        "the tree equals the derivation for every document of the grammar, see DESIGN section 6): the argument-letter decision table "
+        "of LatexStandardArgumentParser.get_arg_parser_instance for m { o [ s * t<c> r<c1c2> d<c1c2> v v<c1c2> e{chars} "
+        "AnyDelimited[Optional] with symbolic delimiter characters (parser class, delimiters, optional, allow_pre_space) and the "
+        "parser cache; LatexArgumentsParser.parse: slot j holds the result of parser j, called in order; an absent optional "
+        "delimited argument returns (None, None) and consumes nothing, allow_pre_space=False being the line-break rule "
+        "(LatexDelimitedExpressionParser.parse for groups and math, verified against the parser interface contract); the optional "
+        "one-character marker (star, t<c>) is read at most once and gives its whitespace back when absent (loop contract); bracket "
+        "delimiters are added to the group delimiters only when absent and children get the OUTER state unless they open with the "
+        "same delimiter; group / environment contents stop exactly at the matching closer / the \\end of the same name; the call "
+        "parsers build the node from the call token, the arguments object returned by the arguments parser and the body returned "
+        "by the body parser, spanning from the call token to the reader; process_one_token's dispatch and spans (C01 unit).",
+   ref="DESIGN.md section 5 and 6, C02",
+   note=NOTE + "; the composition of these mechanisms over whole documents is not claimed; multi-character markers, embellishment "
+        "lists, verbatim and multi-delimiter parsers are not under contract")
+
 NA = {
 }
 DEFAULT_NA = "check not built yet (work in progress; see DESIGN.md section 5 for the planned contracts)"
